@@ -17,7 +17,9 @@ Compared per image, for TWO consecutive opens: the return code of jls_rd_open, t
 (every ftruncate, every write(2) with offset and bytes, every fsync) and the file afterwards (length + FNV-1a 64).
 
 Genuine defect classes of the C are reported through ctx.violation(..., sig=<signature>) (see DEFECT_SIGS); a
-difference between model and implementation is a violation without signature.
+difference between model and implementation is a violation without signature, and so are two classes that were defects of the C
+until /repo 966bf8c / cf5fc54: a repair that truncates below the last complete chunk of a cut closed file, and a model fault 9
+(a chunk of another kind loaded as SUMMARY/INDEX by jls_core_repair_fsr).
 
 Exclusion (stated, as in WM.py): for 24-bit signals the payload and payload CRC of re-created FSR SUMMARY chunks are
 not compared (the C summarises uninitialised memory) and the file hash is not compared for such images.
@@ -41,9 +43,7 @@ DEFECT_SIGS = {
     "end_inplace": "repair-end-chunk-not-at-end-of-file",           # END header written over a chunk in the middle of the file (fixed by /repo 6df24a0)
     "second_open": "repair-second-open-not-quiet",                  # the second open of a repaired file writes again / fails
     "uninit_ppl": "repair-uninitialised-payload-prev-length",       # a fresh chunk header written in place keeps stack garbage in payload_prev_length
-    "wrong_chunk": "repair-fsr-level-walk-no-tag-check",            # jls_core_repair_fsr loads whatever chunk follows an INDEX as its SUMMARY (model fault 9)
     "cycle": "open-hangs-on-cyclic-item-next",                      # a CRC-valid chunk whose item_next points to itself / backwards: jls_rd_open never returns
-    "blind_spot": "rd-chunk-end-discards-complete-last-chunk",       # backward scan never tests the first 8-byte slot of a window: a complete chunk 1024+1000k bytes before the end is cut off
     "segv": "rd-chunk-end-index-underflow",                         # jls_core_rd_chunk_end: (length - 32) / 8 underflows for a window shorter than a header
 }
 
@@ -351,11 +351,6 @@ def diff_case(c):
         if m[k]["fault"] == 8 and a[k]["rc"] != 0 and not ilog:
             c["short_uninit"] = True      # file shorter than 24 bytes: the C tests an uninitialised length; any error, no writes
             continue
-        if m[k]["fault"] == 9 and a[k]["rc"] == m[k]["rc"] and len(ilog) == len(m[k]["log"]):
-            # the C memcpy'd a chunk of another kind / signal into lvl->summary (or lvl->index): the model can not carry its header
-            # fields; same rc and same number of backend calls, the bytes derived from that buffer are not compared
-            c["defect"] = ("wrong_chunk", t + "jls_core_repair_fsr loaded a chunk that is not the SUMMARY/INDEX of the level it walks (model fault 9: %s)" % RPF[9])
-            return None
         if m[k]["fault"]:
             return t + "the model left its domain: fault %d (%s); implementation rc %d, %d log entries" % (
                 m[k]["fault"], RPF.get(m[k]["fault"], "?"), a[k]["rc"], a[k]["nlog"])
@@ -553,8 +548,10 @@ def run_rp(ctx, n=None, per_program=None, variant="plain", cycle=True):
                 ends = [off + tot for off, tag, tot in c["chunks"] if off + tot <= L]
                 e0 = c["impl_logs"][0][0]
                 if ends and e0[0] == "t" and e0[1] < max(ends):
-                    defect(c, "blind_spot", "file cut at %d: the last complete chunk ends at %d, but the repair truncated at %d (a complete, CRC-valid chunk was discarded; "
-                           "jls_core_rd_chunk_end never tests the candidate in the first 8 bytes of a 1024-byte window)" % (L, max(ends), e0[1]))
+                    # fixed by /repo 966bf8c (the scan tests every 8-aligned offset): a plain violation if it comes back
+                    nv += 1
+                    ctx.violation("rp_lastchunk_%d.txt" % nv, replay_text(c), "file cut at %d: the last complete chunk ends at %d, but the repair truncated at %d "
+                                  "(a complete, CRC-valid chunk was discarded by the backward scan)" % (L, max(ends), e0[1]))
             if c.get("uninit_seen"):
                 outcome["uninit_ppl_written"] = outcome.get("uninit_ppl_written", 0) + 1
                 ctx.rp_uninit = getattr(ctx, "rp_uninit", []) + [c]
